@@ -189,7 +189,25 @@ where
             }
         }
     }
-    {
+    if cmd == "clone_pipelined" {
+        // the way the CLI (and the README's example) consume the stream: decompression / verification as futures, several chunks in flight -
+        // after an error item the adaptor polls the source stream again while it drains what is in flight
+        use futures_util::TryStreamExt;
+        let mut stream = archive
+            .chunk_stream(output.chunks())
+            .map_err(|_| ())
+            .map(|r| async move { r.and_then(|c| c.decompress().map_err(|_| ())).and_then(|d| d.verify().map_err(|_| ())) })
+            .buffered(4);
+        while let Some(r) = stream.next().await {
+            let v = match r {
+                Ok(v) => v,
+                Err(_) => return ("ok".into(), "err".into(), vec![]),
+            };
+            if output.feed(&v).await.is_err() {
+                return ("ok".into(), "err".into(), vec![]);
+            }
+        }
+    } else {
         let mut stream = archive.chunk_stream(output.chunks());
         while let Some(r) = stream.next().await {
             let c = match r {
@@ -665,6 +683,10 @@ pub fn main(args: &[String]) {
                 emit(json!({"ev": "case", "n": ncase, "kind": "server", "beh": beh, "target": target, "retries": retries, "region": if beh == "extra" || beh.starts_with("cl") || beh == "chunked" { "none" } else if target == "chunks" { "chunk" } else { "dict" }, "chunk": 1, "needed": true,
                             "len": b.archive.len(), "alg": 2, "f": {}}), &mut w);
                 let e = l1(&mut pool, &b.archive, "clone", &[], &[], true, &script, &b.src_bytes, &[]);
+                nrun += 1;
+                emit(e, &mut w);
+                // ... and consumed the way the CLI does it (several chunks in flight)
+                let e = l1(&mut pool, &b.archive, "clone_pipelined", &[], &[], true, &script, &b.src_bytes, &[]);
                 nrun += 1;
                 emit(e, &mut w);
                 emit(json!({"ev": "done"}), &mut w);
